@@ -101,6 +101,8 @@ class State:
         s.trace = list(self.trace)
         s.next_loc = self.next_loc
         s.counter = self.counter
+        if 'class_epoch' in self.__dict__:
+            s.class_epoch = self.class_epoch
         return s
 
 
@@ -626,6 +628,11 @@ class Interp:
             r = self.ctx.sidecar_lookup(self, frame.sidecar, name)
             if r is not None:
                 return r
+            if name[:1].isupper() and frame.module is None:
+                # contract text may name a repository class (its class-level state, isinstance): resolved by its unique name
+                ci = self.ctx.find_class_by_name(name)
+                if ci is not None:
+                    return VClass(ci)
         if frame.cls is not None and frame.finfo is None:
             # evaluation of a class-body expression: earlier class attributes are in scope
             a = frame.cls.find_attr(self.repo, name)
@@ -1253,7 +1260,7 @@ class Interp:
                         if cv is not None:
                             return cv
                         v0 = self.ev(expr, Frame({}, owner.module, owner))
-                        if not self.pure and (mname in self.ctx.mutable_class_attrs() or name in self.ctx.mutable_class_attrs()):
+                        if mname in self.ctx.mutable_class_attrs() or name in self.ctx.mutable_class_attrs():
                             return self.ctx.class_attr_entry_value(self, owner, mname, v0)
                         return v0
                     lazy = self.ctx.lazy_field(self, obj, c, mname)
@@ -1283,10 +1290,16 @@ class Interp:
             if cv is not None:
                 return cv
             a = info.find_attr(self.repo, mname) or info.find_attr(self.repo, name)
+            if a is None and name.startswith('_') and '__' in name[1:]:
+                # an already mangled name (_Class__attr, as contract text writes it): the class body spells it __attr
+                cname_, _, rest_ = name[1:].partition('__')
+                a = info.find_attr(self.repo, '__' + rest_)
+                if a is not None and a[0].name.lstrip('_') != cname_:
+                    a = None
             if a is not None:
                 owner, expr = a
                 v0 = self.ev(expr, Frame({}, owner.module, owner))
-                if not self.pure and (mname in self.ctx.mutable_class_attrs() or name in self.ctx.mutable_class_attrs()):
+                if mname in self.ctx.mutable_class_attrs() or name in self.ctx.mutable_class_attrs():
                     return self.ctx.class_attr_entry_value(self, owner, mname, v0)
                 return v0
             raise Unsupported('class attribute %s.%s' % (info.name, name), node)
